@@ -113,7 +113,8 @@ theorem mkdir_step_core {d : Disk} (inv : Inv d) {p : Bytes} {now : Stamp} (a : 
   have hentName : entName e' = absPath p := by rw [n2, absPath_of_parts hk n5]
   have hisdir : (e'.getD 11 0 / 16) % 2 = 1 := by rw [hattr]
   have hshown' : shown e' := ⟨⟨n6, q1⟩, n7, by rw [hattr]; omega, by rw [hattr], n8⟩
-  have hgood' : NameGood e' := ⟨trimEnd B, trimEnd X, n1, n2, n4, n5, fun _ => by rw [hentName]; exact hname⟩
+  have hgood' : NameGood e' :=
+    ⟨trimEnd B, trimEnd X, n1, n2, n4, n5, (fun _ => by rw [hentName]; exact hname), (fresh_noSlash np).1, (fresh_noSlash np).2⟩
   have hpath' : entPath [] e' = absPath p := by
     unfold entPath
     simp only [List.isEmpty_nil, if_true]
